@@ -17,6 +17,20 @@ def cases(tier, r):
             for m in range(2 ** (R * C)):
                 sel = [wells[i] for i in range(R * C) if m >> i & 1]
                 ps.append({"x": "sel", "rows": R, "cols": C, "sel": sel, "tag": str(m), "nd": m % 2 == 0})
+                if len(sel) >= 2 and R > 1 and C > 1:
+                    # the same subset listed row by row (the order of `wells[mask]`), bottom-up, and - small subsets - in every order:
+                    # the selection is the set of the named wells, whatever their order
+                    rowmajor = sorted(sel)
+                    if rowmajor != sel:
+                        ps.append({"x": "sel", "rows": R, "cols": C, "sel": rowmajor, "tag": f"{m}-rowmajor", "nd": m % 2 == 1})
+                    if m % 3 == 0:
+                        ps.append({"x": "sel", "rows": R, "cols": C, "sel": sel[::-1], "tag": f"{m}-reversed"})
+                    if len(sel) == 3 and (R * C <= 8 or not q):
+                        import itertools
+
+                        for perm in itertools.permutations(sel):
+                            if list(perm) not in (sel, rowmajor):
+                                ps.append({"x": "sel", "rows": R, "cols": C, "sel": list(perm), "tag": f"{m}-perm"})
     # all single-well and full selections of every geometry (quick: a covering subset)
     Rs = range(1, 27) if not q else [1, 2, 3, 7, 8, 16, 26]
     Cs = range(1, 49) if not q else [1, 2, 5, 7, 12, 24, 48]
